@@ -10,7 +10,7 @@ TESTS = os.path.join(vlib.REPO, "tests")
 KNOWN = {2: "K_interleave", 3: "K_objarr_after_out", 4: "K_no_limit", 5: "K_pad_bundle"}   # 4 cannot occur any more: the repaired Counter rejects such methods
 
 
-def gen_batch(rng, nmethods=12):
+def gen_batch(rng, nmethods=12, chain=False):
     ctx = gen.Ctx(rng)
     decls = []
     for _ in range(rng.randint(2, 4)):
@@ -39,7 +39,16 @@ def gen_batch(rng, nmethods=12):
             ok = False          # more than 15 slots of a class: rejected by the Counter (checked by C02 at L0)
         if ok:
             methods.append(("m%d" % len(methods), ps))
-    decls.append(("iface", "IL2", None, [("method", n, ps, False, None) for n, ps in methods]))
+    if chain:
+        # "own or inherited": the methods are spread over a chain IL0 <- IL1 <- IL2 (the flattened
+        # interface lists the root's methods first, which is the order of `methods`)
+        a, b = len(methods) // 3, 2 * len(methods) // 3
+        mk = lambda part: [("method", n, ps, False, None) for n, ps in part]
+        decls.append(("iface", "IL0", None, mk(methods[:a])))
+        decls.append(("iface", "IL1", "IL0", mk(methods[a:b])))
+        decls.append(("iface", "IL2", "IL1", mk(methods[b:])))
+    else:
+        decls.append(("iface", "IL2", None, [("method", n, ps, False, None) for n, ps in methods]))
     fs = {"files": [{"path": "l2.idl", "includes": [], "decls": decls}], "main": "l2.idl", "idirs": []}
     return ctx, fs, methods
 
@@ -117,6 +126,37 @@ def near_valid_probe(ctx_, work, vals):
     return "accepted", fails
 
 
+def near_limit_probe(ctx_, work, vals):
+    """methods that need 16 slots of one class only because of the bundle or single small value
+    that travels beside 15 discrete buffers: rejected by the unchanged compiler; if the tree under
+    check accepts them they must round-trip (the counts word has 4 bits per class)."""
+    rng = vlib.mkrng(0, "near-limit")
+    c = gen.Ctx(rng)
+    m_in = [("in", "buffer", None, "b%d" % i) for i in range(15)] + [("in", "uint32", None, "k"), ("out", "uint32", None, "r")]
+    m_in2 = [("in", "uint8", "[]", "b%d" % i) for i in range(15)] + [("in", "uint16", None, "k0"), ("in", "uint32", None, "k1"), ("out", "uint32", None, "r")]
+    m_out = [("out", "buffer", None, "b%d" % i) for i in range(15)] + [("out", "uint32", None, "r"), ("in", "uint32", None, "k")]
+    status, fails = [], []
+    for tag, ps in (("in1", m_in), ("in2", m_in2), ("out1", m_out)):
+        methods = [("m0", ps)]
+        fs = {"files": [{"path": "l2.idl", "includes": [], "decls": [("iface", "IL2", None, [("method", "m0", ps, False, None)])]}], "main": "l2.idl", "idirs": []}
+        root = os.path.join(work, "nearlimit_" + tag)
+        gen.write_fileset(fs, root)
+        r1 = scrape.idlc_run(ctx_["idlc"], os.path.join(root, "l2.idl"), os.path.join(root, "l2.h"), "c", False)
+        r2 = scrape.idlc_run(ctx_["idlc"], os.path.join(root, "l2.idl"), os.path.join(root, "l2_invoke.h"), "c", True)
+        if r1[0] != 0 or r2[0] != 0:
+            status.append(tag + ": rejected")
+            continue
+        status.append(tag + ": accepted")
+        text = gen.render_file(fs["files"][0])
+        r = build_and_run(root, "nl", c, methods, vals[:2], "gcc")
+        for bad in compare(r, c, methods, vals[:2])[:4]:
+            fails.append({"property": ctx_["prop"], "idl": text, "compiler": "gcc", "method": bad[0], "valuation": bad[1],
+                          "expected": bad[2][:600], "observed": bad[3][:600],
+                          "what": "the compiler accepts a method that needs 16 buffers of one direction and the round trip through "
+                                  "C stub -> copying transport -> C skeleton differs"})
+    return "; ".join(status), fails
+
+
 def run(ctx_):
     prop, tier, seed, work = ctx_["prop"], ctx_["tier"], ctx_["seed"], ctx_["work"]
     nb = 6 if tier == "quick" else 150
@@ -125,7 +165,7 @@ def run(ctx_):
         res["coverage"] = {"evaluations": 0, "distinct_nontrivial": 0, "rule": "not run", "samples": []}
         return res
     rng = vlib.mkrng(seed, prop)
-    batches = [gen_batch(rng) for _ in range(nb)]
+    batches = [gen_batch(rng, chain=(i % 2 == 1)) for i in range(nb)]
     lines = []
     for b, (c, fs, methods) in enumerate(batches):
         root = os.path.join(work, "b%d" % b)
@@ -198,8 +238,10 @@ def run(ctx_):
                                         "what": "methods of class %s do not round-trip (%d log lines differ or the sanitizer aborts)" % (cls, nbad)})
     nv_status, nv_fails = near_valid_probe(ctx_, work, vals)
     res["failures"] += nv_fails
+    nl_status, nl_fails = near_limit_probe(ctx_, work, vals)
+    res["failures"] += nl_fails
     res["coverage"] = {
-        "near_valid_structs": nv_status,
+        "near_valid_structs": nv_status, "near_limit_methods": nl_status,
         "evaluations": ncalls, "distinct_nontrivial": distinct,
         "rule": "%d generated interfaces of 12 methods (0-8 parameters over primitives, buffers, primitive and struct arrays, small and big object-free "
                 "structs, objects, object arrays); every method outside the known classes is called with 3 valuations (boundary lengths 0/1/3/5, "
